@@ -508,12 +508,12 @@ fn main() {
     let mut rep = Report::new(
         "viewmc",
         "C13",
-        "payloads of length L in 0..5 (quick) / 0..7 (thorough), never at offset 0 of their source, followed by other bytes or ending exactly at the end of the source, on 8 source kinds (Vec, file uncut, file cut <4 KiB, file cut >=4 KiB mmap, background decoder identity and zstd, content #2 of a raw and of a compressed cluster through the container API); every chain of nested cuts (o1,s1) >= (o2,s2) >= (o3,s3) up to depth 3; on every view: size(), get_slice of every sub-range on the slice and on the converted region, and 4 stream conversion paths x every composition of the length into read sizes with size()/offset()/size_left() after every read, a zero-length read before every read and at the end (returns 0, moves nothing) and an over-long read at the end, and the same walk with read_exact for every part but the last and read_to_end for the rest; plus one 5000-byte payload per source with a reduced cut set and one 70000-byte payload per source with slices and reads of 65535/65536/65537+ bytes on the region, a slice, a nested slice and the region made from it; one 6 MiB incompressible content stored compressed (stored cluster above 4 MiB) in a file-backed pack; contents of 1..9 bytes alone in a zstd/lz4/lzma cluster (cuts to depth 2); a decoder scripted to stall after its first 4096 bytes with the first access deep in the data; two views of one source read alternately (all 6 interleavings of 2+2 reads) at distances {0,10,1023,1024,1025,2048,4096} x read sizes {1,10,1023,1024}; non-trivial = view of at least one byte; distinct by (source, L, chain)",
+        "payloads of length L in 0..5 (quick) / 0..8 (thorough), never at offset 0 of their source, followed by other bytes or ending exactly at the end of the source, on 8 source kinds (Vec, file uncut, file cut <4 KiB, file cut >=4 KiB mmap, background decoder identity and zstd, content #2 of a raw and of a compressed cluster through the container API); every chain of nested cuts (o1,s1) >= (o2,s2) >= (o3,s3) up to depth 3; on every view: size(), get_slice of every sub-range on the slice and on the converted region, and 4 stream conversion paths x every composition of the length into read sizes with size()/offset()/size_left() after every read, a zero-length read before every read and at the end (returns 0, moves nothing) and an over-long read at the end, and the same walk with read_exact for every part but the last and read_to_end for the rest; plus one 5000-byte payload per source with a reduced cut set and one 70000-byte payload per source with slices and reads of 65535/65536/65537+ bytes on the region, a slice, a nested slice and the region made from it; one 6 MiB incompressible content stored compressed (stored cluster above 4 MiB) in a file-backed pack; contents of 1..9 bytes alone in a zstd/lz4/lzma cluster (cuts to depth 2); a decoder scripted to stall after its first 4096 bytes with the first access deep in the data; two views of one source read alternately (all 6 interleavings of 2+2 reads) at distances {0,10,1023,1024,1025,2048,4096} x read sizes {1,10,1023,1024}; non-trivial = view of at least one byte; distinct by (source, L, chain)",
     );
     rep.extra.insert("profile".into(), json!(profile));
     let dir = jbkmc::scratch_dir("view");
     let t = args.thorough();
-    let maxl = if t { 7 } else { 5 };
+    let maxl = if t { 8 } else { 5 };
     let replay: Option<J> = args.replay.as_ref().map(|p| {
         let j: J = serde_json::from_str(&std::fs::read_to_string(p).expect("replay")).unwrap();
         if j.get("case").is_some() { j["case"].clone() } else { j }
